@@ -2,7 +2,7 @@
    This file only states the property theorems and closes each with a lemma proved in
    Proofs/; `Check` pins every statement, `Print Assumptions` shows what each rests on. *)
 From Coq Require Import String.
-From HS Require Import Lib.Base Lib.Bytes Lib.Dec Model.Range Model.Body Model.Serve Spec.RangeGrammar Proofs.RangeP Proofs.BodyP Proofs.ServeP Proofs.ServeProps Proofs.DecisionP.
+From HS Require Import Lib.Base Lib.Bytes Lib.Dec Model.Range Model.Body Model.Serve Spec.RangeGrammar Proofs.RangeP Proofs.BodyP Proofs.ServeP Proofs.ServeProps Proofs.DecisionP Spec.Validators Spec.Multipart Spec.Response Model.Etag Proofs.MultipartP Proofs.EchoP Proofs.EndToEnd.
 
 (* Every grammatical byte-range-set -- any number of specs of the three forms, optional
    whitespace after commas (and before the first element), leading zeros, all numbers
@@ -89,9 +89,32 @@ Check c03_ignore : forall h L,
   range_parse (Some h) L <> RNone ->
   exists ws0 x l, h = bytes_eq_prefix ++ render_set ws0 x l /\
     elem_ok (ws0, x) /\ bounded x /\ Forall (fun p => elem_ok p /\ bounded (snd p)) l.
+(* The same resolution seen end to end, with conditional headers and If-Range present: status, entity
+   reads and body bytes are those of the AST-level specification Spec/Response.v (Proofs/EndToEnd.v). *)
+Theorem c03_end_to_end : forall fmt_date parse_date content now (et : option tag) ent req im inm ims ius rast streams,
+  e_len ent < U64 -> e_etag ent = option_map render_tag et -> r_meth req = GET ->
+  wf_conds parse_date req im inm ims ius -> range_rel (e_len ent) (r_range req) rast ->
+  let L := e_len ent in
+  let in_force := match r_if_range req with
+                  | None => true
+                  | Some ifr => match e_etag ent with Some e => beq_bytes ifr e && starts_with DQ e | None => false end
+                  end in
+  let eh := match r_if_range req with Some _ => [] | None => e_hdrs ent end in
+  let o := spec_outcome content et (option_map (fun m => m / NS) (e_lm ent)) im inm ims ius
+                        (if in_force then rast else None) L eh in
+  exists r, serve_model fmt_date parse_date now ent req = Ok r /\ status r = spec_status o /\
+    snd (body_init streams (rplan r)) = (match o with OMulti _ => [] | _ => spec_reads L o end) /\
+    (honest_for content streams (spec_reads L o) ->
+     forall n rs_ bf, run n streams (fst (body_init streams (rplan r))) = Ok (rs_, bf) ->
+       existsb is_perr rs_ = false /\
+       forall body, spec_body content L eh o = Some body ->
+         (exists rest, data_bytes rs_ ++ rest = body) /\ (existsb is_pend rs_ = true -> data_bytes rs_ = body)).
+Proof. exact serve_refines_spec. Qed.
+
 Print Assumptions c03_parse.
 Print Assumptions c03_overflow_ignored.
 Print Assumptions c03_ignore.
 Print Assumptions c03_ranges_within_entity.
 Print Assumptions c03_dispatch.
 Print Assumptions c03_estimate_covers_total.
+Print Assumptions c03_end_to_end.
